@@ -153,8 +153,13 @@ func execRun(t *testing.T, prop string, sc *Scenario, seed uint64, vals []uint32
 
 var (
 	progress   atomic.Int64
+	beats      atomic.Int64
 	currentRun atomic.Value
 )
+
+// Heartbeat tells the watchdog that a long run is making progress (callable from inside a bubble, where
+// time.Now is the simulated clock: it only counts, the watchdog goroutine reads the real clock).
+func Heartbeat() { beats.Add(1) }
 
 // startWatchdog kills the process when one run does not finish within the limit (a resolution or a
 // writer pass that never returns): the driver ties the death to the announced seed and reports it.
@@ -162,10 +167,16 @@ func startWatchdog(limit time.Duration) {
 	progress.Store(time.Now().UnixNano())
 
 	go func() {
+		lastBeats, lastChange := beats.Load(), time.Now()
+
 		for {
 			time.Sleep(time.Second)
 
-			if time.Since(time.Unix(0, progress.Load())) > limit {
+			if b := beats.Load(); b != lastBeats {
+				lastBeats, lastChange = b, time.Now()
+			}
+
+			if time.Since(time.Unix(0, progress.Load())) > limit && time.Since(lastChange) > limit {
 				fmt.Printf("WATCHDOG: run %v did not finish within %v - non-termination\n", currentRun.Load(), limit)
 				os.Exit(3)
 			}
